@@ -87,6 +87,58 @@ def take_picture_impl(cfg, positions, self_index):
     return out, None
 
 
+def dynamic_pictures_impl(cfg, positions, self_index, dyn):
+    """a real simulation in which node `mover` flies to a target while the camera node takes a picture in
+    every timer callback (armed for the update instants, so it runs BEFORE that instant's mobility
+    update) and in every telemetry callback (AFTER it): several pictures per instant with the scene
+    changing in between. Returns the shots: where, time, true positions of all nodes, picture."""
+    from gradysim.simulator.handler.timer import TimerHandler
+    shots = []
+    holder = {}
+    conf = CameraConfiguration(camera_reach=cfg["reach"], camera_theta=cfg["theta"],
+                               facing_elevation=cfg["elevation"], facing_rotation=cfg["rotation"])
+    n = len(positions)
+    dt, k = dyn["dt"], dyn["ticks"]
+
+    def shoot(proto, where):
+        sim = holder["sim"]
+        try:
+            pic = [v3bits(e["position"]) for e in proto.cam.take_picture()]
+            crash = None
+        except Exception as e:
+            pic, crash = None, _exc(e)
+        shots.append({"where": where, "t": proto.provider.current_time(),
+                      "positions": [v3bits(sim.get_node(i).position) for i in range(n)],
+                      "picture": pic, "crash": crash})
+
+    class Shooter(_Silent):
+        def initialize(self):
+            self.cam = CameraHardware(self, conf)
+            for j in range(1, k + 1):
+                self.provider.schedule_timer("shot", j * dt)
+
+        def handle_timer(self, timer):
+            shoot(self, "timer")
+
+        def handle_telemetry(self, telemetry):
+            shoot(self, "telemetry")
+
+    class Mover(_Silent):
+        def initialize(self):
+            self.provider.send_mobility_command(GotoCoordsMobilityCommand(*dyn["target"]))
+
+    builder = SimulationBuilder(SimulationConfiguration(duration=k * dt, execution_logging=False))
+    for i, p in enumerate(positions):
+        builder.add_node(Shooter if i == self_index else (Mover if i == dyn["mover"] else _Silent), p)
+    builder.add_handler(TimerHandler())
+    builder.add_handler(MobilityHandler(MobilityConfiguration(update_rate=dt, default_speed=dyn["speed"])))
+    sim = builder.build()
+    holder["sim"] = sim
+    simimpl.quiet_logging()
+    sim.start_simulation()
+    return shots
+
+
 def angle_oracle(ax, rel):
     """angle between axis and rel by atan2(|a x r|, a . r): well conditioned everywhere"""
     cx = ax[1] * rel[2] - ax[2] * rel[1]
@@ -242,6 +294,17 @@ class C19(Check):
             pos.append(s)
         return self._finish(r, label, "dyadic", reach, theta, elev, rot, pos, 0, shift_exact=True)
 
+    def _dynamic(self, r, case):
+        """a share of the cases also run as a moving scene (see dynamic_pictures_impl)"""
+        n = len(case["positions"])
+        if n < 2 or r.random() > 0.12:
+            return case
+        others = [i for i in range(n) if i != case["selfIndex"]]
+        tgt = (float(r.randint(-12, 12)), float(r.randint(-12, 12)), float(r.randint(0, 12)))
+        case["dynamic"] = {"mover": r.choice(others), "target": v3bits(tgt), "speed": fbits(float(r.choice([2, 4, 8]))),
+                           "dt": fbits(r.choice([0.5, 1.0])), "ticks": r.choice([3, 5, 8])}
+        return case
+
     def _finish(self, r, label, cls, reach, theta, elev, rot, pos, self_index, shift_exact=False, shift_clear=False):
         # registration order: the camera's node is not always the first one
         order = list(range(len(pos)))
@@ -255,7 +318,7 @@ class C19(Check):
             case["shift"] = {"exact": True, "v": v3bits(tuple(dy(r, -4096, 4096) for _ in range(3)))}
         elif shift_clear and r.random() < 0.5:
             case["shift"] = {"exact": False, "v": v3bits(tuple(r.uniform(-1000, 1000) for _ in range(3)))}
-        return case
+        return self._dynamic(r, case)
 
     # -------------------------------------------------------------------------------- execution
     @staticmethod
@@ -272,6 +335,14 @@ class C19(Check):
             moved = [(p[0] + t[0], p[1] + t[1], p[2] + t[2]) for p in positions]
             pic2, crash2 = take_picture_impl(cfg, moved, case["selfIndex"])
             out["shifted"] = {"picture": pic2, "crash": crash2, "positions": [v3bits(p) for p in moved]}
+        d = case.get("dynamic")
+        if d and len(positions) >= 2:
+            try:
+                out["dynamic"] = dynamic_pictures_impl(cfg, positions, case["selfIndex"],
+                                                       {"mover": d["mover"], "target": bitsv3(d["target"]),
+                                                        "speed": bitsf(d["speed"]), "dt": bitsf(d["dt"]), "ticks": d["ticks"]})
+            except Exception as e:
+                out["dynamic"] = [{"where": "run", "t": 0, "positions": case["positions"], "picture": None, "crash": _exc(e)}]
         return out
 
     def model_input(self, case, impl):
@@ -338,6 +409,13 @@ class C19(Check):
                           f"{positions[case['selfIndex']]}, {len(positions) - 1} other nodes)"))
         else:
             self._judge_scene(cfg, positions, case["selfIndex"], impl["picture"], fails)
+        for shot in impl.get("dynamic") or []:
+            tag = f"[moving scene, picture taken in handle_{shot['where']} at t={shot['t']}] "
+            if shot["crash"] is not None:
+                fails.append(("C19:raises", tag + f"take_picture raised {shot['crash']}"))
+            else:
+                self._judge_scene(cfg, [bitsv3(p) for p in shot["positions"]], case["selfIndex"], shot["picture"],
+                                  fails, tag=tag, wide=True)
         sh = impl.get("shifted")
         if sh:
             t = bitsv3(case["shift"]["v"])
@@ -533,6 +611,11 @@ class C20(Check):
                 elif mode < 0.24:
                     e_m = 0.0
                 targets.append(mk(n_m, e_m, r.choice([alt0, alt0 + r.uniform(-200, 200)])))
+        if i % 8 == 0 and r.random() < 0.6:
+            # waypoints stacked over one another: same latitude/longitude, different altitudes (descend
+            # over a point, two nodes holding at different flight levels)
+            t0 = r.choice(targets)
+            targets.append((t0[0], t0[1], t0[2] + r.choice([-70.0, 40.0, 110.0])))
         case = {"kind": "geo", "label": label, "ref": v3bits(ref), "targets": [v3bits(t) for t in targets], "goto": None}
         if i % 8 == 0:
             case["goto"] = {"speed": fbits(float(r.choice([512, 1024, 2048]))), "dt": fbits(r.choice([0.5, 1.0, 0.25])),
